@@ -9,8 +9,9 @@ import Verif.Model.Store
                                      `GetTokenID` errs; else `db.UseToken(id, tok)`: `CmpAndSwap nil→tok`
                                      resp. `sync.Map.LoadOrStore`; not swapped ⇒ 401 "already used")
       3 the provisioner's `Authorize*` (validation of the token; input bit `valid`)
-    and `Authority.UseToken` (`useKey`: id, or lower-case hex SHA-256 of the *presented string*
-    when the id is empty);
+    and `Authority.UseToken` (`useKey`: id, or — when the id is empty — lower-case hex SHA-256 of the token's
+    *signed payload* (`reuseKeyMaterial`, since c4bb6a3; of the presented string when it does not parse; before
+    that commit always of the presented string: D12b));
   * the per-type `GetTokenID` of /repo/authority/provisioner/{jwk,x5c,sshpop,nebula,oidc,azure,
     aws,gcp,k8sSA,acme,scep}.go (`getTokenID`);
   * /repo/db/db.go `DB.UseToken` and /repo/db/simple.go `SimpleDB.UseToken` through `Store.casNil`;
@@ -43,7 +44,9 @@ structure Tok where
   nonce : Str
   derived : Str            -- azure: hex sha256(xms_mirid); aws/gcp: hex sha256("<id>.<instance>")
   awsValid : Bool          -- AWS.authorizeToken(token) succeeded (GetTokenID validates first)
-  sha : Str                -- lower-case hex SHA-256 of the presented string
+  sha : Str                -- lower-case hex SHA-256 of the presented string (what GCP / AWS without TOFU use as id)
+  psha : Str               -- lower-case hex SHA-256 of the signed payload (of the presented string when it does not parse):
+                           -- what `UseToken` falls back to for an empty id
   deriving Repr, DecidableEq
 
 /-- Result of `prov.GetTokenID(token)`. -/
@@ -83,11 +86,19 @@ def ptypeOf (c : PCfg) : PType :=
   | .gcp => .gcp c.disableTrustOnFirstUse
   | .k8ssa => .k8ssa | .acme => .acme | .scep => .scep
 
+/-- The id under which `AuthorizeRenewToken` records a renew token (x5cInsecure token of the CA's own format) for a
+    certificate issued by a provisioner of type `ty`. Since the fix of D12d (`useRenewToken`): the token's own jti
+    (empty ⇒ `useKey` falls back to the payload hash) whatever `ty` is. Before: `renewIdROld`, the answer of the
+    *certificate's provisioner's* `GetTokenID`, written for that provisioner's provisioning tokens. -/
+def renewIdR (_ty : PType) (t : Tok) : IdR := .id t.jti
+
+def renewIdROld (ty : PType) (t : Tok) : IdR := getTokenID ty t
+
 /-- `Authority.UseToken`: the key under which the token is recorded; `none` = nothing is recorded
     (every `GetTokenID` error is ignored). -/
-def useKey (r : IdR) (sha : Str) : Option Str :=
+def useKey (r : IdR) (psha : Str) : Option Str :=
   match r with
-  | .id [] => some sha
+  | .id [] => some psha
   | .id k => some k
   | .reuse => none
   | .err => none
@@ -103,7 +114,7 @@ structure Inp where
   lookupOK : Bool
   iat : Option Nat
   idr : IdR
-  sha : Str
+  sha : Str              -- the hash `UseToken` falls back to for an empty id: of the signed payload (`Tok.psha`)
   skip : Bool            -- SkipTokenReuseFromContext(ctx)
   valid : Bool
   deriving Repr, DecidableEq
@@ -159,6 +170,14 @@ def restartL (r : Req) : Req :=
   if r.out = .pending ∧ r.pc ≠ 0 then { r with out := .dropped } else r
 
 def machine : Machine G Req := { step := step, restartG := restartG, restartL := restartL }
+
+/-- The events of one running process: requests step, and the configuration is *reloaded* (SIGHUP, /repo/ca/ca.go
+    `CA.Reload`): a new `Authority` is built with `WithDatabase(ca.auth.GetDatabase())`, i.e. on the used-token table of
+    the old one — the database handle, or the in-memory `SimpleDB` when no database is configured — so the table is
+    kept whatever `persistent` says; `startTime` becomes the reload time; requests in flight on the old authority
+    finish on the same table. (`Ev.restart now` is read as "reload at `now`" by this machine.) -/
+def machineReload : Machine G Req :=
+  { step := step, restartG := fun now g => { g with start := now }, restartL := fun r => r }
 
 /-- requests whose own CAS stored the record for key `k` -/
 def insertedWith (k : Str) (r : Req) : Bool := r.inserted && r.key == some k
